@@ -185,7 +185,7 @@ TwinEqualsXsec  == evald => \A g \in 1..NG : outk[g] = outx
 OnRequestedGrid == evald => \A g \in 1..NG : DOMAIN outk[g] = Req(win)
 \* on nodes and outside the table the scheme does not enter: the result is the same under every scheme
 SchemeFree(w, t) == \A m \in Interps : Fresh(w, t, m) = Fresh(w, t, Default)
-OnNodeSchemeFree == \A w \in WinIds, t \in 1..NTP : Schemed(t) \/ SchemeFree(w, t)
+OnNodeSchemeFree == evald => (Schemed(tp) \/ SchemeFree(win, tp))
 \* the design variants that must satisfy the invariants, and the mutants, in ONE model-checking run
 Sound     == Key \in {"none", "content", "ends"} /\ ModeRead = "eval" /\ CfgRead = "both"
 HoldFresh == Sound => EvalEqualsFresh
